@@ -38,6 +38,7 @@ def layout_jobs(tier, prefix, harness, entry, srcs, engine='A', shapes=None, kw=
     S = wire.std_shapes(tier)
     for sname, m in S.items():
         if shapes and sname not in shapes: continue
+        if sname == 'str00' and tier == 'quick': continue      # the shape exists for the round-trip checks (C01/C08); its hostile variants run in the thorough tier
         toks = wire.tokens(m); full = wire.size(toks); W = wire.nwords(toks); labels = wire.word_labels(toks)
         def mk(tag, gen, fam, spec=None):
             return Job('%s %s %s' % (prefix, sname, tag), engine, harness, entry, srcs=srcs, gen_c=gen, family='%s/%s' % (prefix, fam), **kw(m, full, spec))
@@ -121,7 +122,8 @@ def msg_jobs(tier):
     J = []
     S = wire.std_shapes(tier)
     # quick tier: the string-array shape's error paths mostly exceed 150 s (measured: 55 of 160 hostile/truncation jobs inconclusive) -> thorough only
-    shapes = ['i32x2', 'msg1'] if tier == 'quick' else list(S)
+    # ... and so do the nested-message shape's (measured: 117 of ~130 msg1 jobs inconclusive at 100 s) -> thorough only as well
+    shapes = ['i32x2'] if tier == 'quick' else list(S)
     for sname in shapes:
         m = S[sname]; toks = wire.tokens(m); full = wire.size(toks); W = wire.nwords(toks); labels = wire.word_labels(toks)
         d = c01.depth(m) + 1
